@@ -40,7 +40,7 @@ PID = 'C08'
 # ---- tunables -----------------------------------------------------------
 #            cases  max_depth  processes  per-case watchdog (s)
 TIERS = {
-    'quick': dict(cases=640, max_depth=70, procs=8, watchdog=120),
+    'quick': dict(cases=640, max_depth=70, procs=8, watchdog=180),
     'thorough': dict(cases=4000, max_depth=300, procs=12, watchdog=300),
 }
 # relative frequency of each partitioner among the cases
@@ -312,7 +312,7 @@ def evaluate(case: dict[str, Any], cin: Any, cout: Any) -> tuple[list[dict[str, 
 
 
 # ---- execution through a real compiler -----------------------------------
-class CaseTimeout(Exception):
+class CaseTimeout(BaseException):  # not swallowed by `except Exception` in the client
     pass
 
 
@@ -368,6 +368,9 @@ def run_one(comp: Any, case: dict[str, Any], watchdog: int) -> dict[str, Any]:
         return res
     except RuntimeError as e:  # not expected with the guard: runtime failure
         res['rebuild'] = True
+        if isinstance(e.__cause__, CaseTimeout):
+            res['status'] = 'timeout'
+            return res
         txt = str(e.__cause__) if e.__cause__ is not None else str(e)
         res['status'] = 'harness_error' if 'Traceback' in txt else 'infrastructure'
         res['err'] = 'compile failed outside the guarded pass: %r caused by %r' % (e, e.__cause__)
@@ -472,7 +475,9 @@ def run_batch(arg: tuple[int, str, list[int]]) -> list[dict[str, Any]]:
                 except Exception as e:  # harness failure: never a verdict
                     r = {'w': [], 'c': {}, 'info': {}, 'status': 'harness_error', 'rebuild': True,
                          'err': '%s: %s @ %s' % (type(e).__name__, str(e)[:200], core.short_tb(e))}
-                if r['status'] != 'infrastructure':
+                if r['status'] == 'timeout' and attempt == 0:
+                    pass  # design: a case that timed out is re-run once, alone
+                elif r['status'] != 'infrastructure':
                     break
                 wl.close_compiler(comp)
                 comp = None
